@@ -19,12 +19,12 @@ theorem new_ok (A : View α) (c : α) (hc : FloatLike.isFinite c = true) : new A
 
 @[simp] def abs (A : View α) (s : State α A.σ) : A.σ × Option α := (s.view, s.out)
 
-theorem upd_eq (A : View α)  (s : State α A.σ) (x : α)  :
+theorem upd_eq (A : View α)  (s : State α A.σ) (x : α)   :
     (update A s x).map (abs A) = (wrap A (gteCore s.clipping_point)).upd (abs A s) x := by
   simp only [update, wrap, mapV, binop, gteCore, abs]; gen_tie
-theorem upd_cfg (A : View α) (s s' : State α A.σ) (x : α) : update A s x = .ok s' → s'.clipping_point = s.clipping_point := by
+theorem upd_cfg (A : View α) (s s' : State α A.σ) (x : α)  : update A s x = .ok s' → s'.clipping_point = s.clipping_point := by
   simp only [update, gteCore]; gen_tie
-theorem last_eq (A : View α)  (s : State α A.σ)  : last A s = (wrap A (gteCore s.clipping_point)).last (abs A s) := by
+theorem last_eq (A : View α)  (s : State α A.σ)   : last A s = (wrap A (gteCore s.clipping_point)).last (abs A s) := by
   simp only [last, wrap, mapV, binop, gteCore, abs]; gen_tie
 
 def sim (A : View α) (c : α)  : Sim (mkView (s0 A c) (update A) (last A)) (wrap A (gteCore c)) where
@@ -34,15 +34,15 @@ def sim (A : View α) (c : α)  : Sim (mkView (s0 A c) (update A) (last A)) (wra
   init_abs := by rfl
   upd := fun (s : State α A.σ) x hs => by
     have h0 : s.clipping_point = c := hs
-    have := upd_eq A s x  
+    have := upd_eq A s x   
     (try rw [h0] at this); exact this
   upd_cfg := fun (s : State α A.σ) x s' hs h => by
     have h0 : s.clipping_point = c := hs
-    have := upd_cfg A s s' x h
+    have := upd_cfg A s s' x  h
     simp_all
   last := fun (s : State α A.σ) hs => by
     have h0 : s.clipping_point = c := hs
-    have := last_eq A s  
+    have := last_eq A s   
     (try rw [h0] at this); exact this
 
 /-- the Rust text of `GTE`, as translated, and the model agree on every input: same answers, same panics -/
